@@ -34,7 +34,7 @@ Definition step (st : option W) (op : list tok) : option W * list tok :=
       else if name =? "view" then (st, if w_alive w then [TN 1] else [TS "gone"])
       else if name =? "stop" then
         match args with
-        | [TS h] =>
+        | TS h :: _ =>
           if w_alive w then
             (* the stop's own answers are judged by the oracle of the driver (soft-stop
                completion depends on the session table, which this model abstracts as EDrained) *)
